@@ -33,3 +33,6 @@ MANIFEST_ENTRY = {
             "function text. Shapes, pixel/world attributes, coordinates changes, value updates and the multiset of hub messages are checked after every step of all short operation sequences on real datasets (bounded).",
     "note": "Finite universe of component slots; ordered-dict model; pyvc + z3. Shape/coordinate/message clauses are bounded (sequences <= 2/3 over 22 operations x 8 dataset configurations + random).",
 }
+
+MANIFEST_ENTRY['text'] += ' update_components is proved to validate all arrays before any value is replaced (a rejected update changes nothing).'
+TRUSTED_BASE.append('update_components contract shared with C05')
